@@ -490,10 +490,21 @@ func (c *C) Data(ctx context.Context, hdr textproto.Header, body io.Reader) erro
 	}
 
 	if err := wc.Close(); err != nil {
+		if isPositiveReply(err) {
+			// The server took the message: any 2yz reply to the end of
+			// data means that, not only "250" the SMTP client library
+			// waits for.
+			return nil
+		}
 		return c.wrapClientErr(err, c.serverName)
 	}
 
 	return nil
+}
+
+func isPositiveReply(err error) bool {
+	var smtpErr *smtp.SMTPError
+	return errors.As(err, &smtpErr) && smtpErr.Code/100 == 2
 }
 
 // abortData is called when the message could not be written completely after
